@@ -114,6 +114,11 @@ func (m *CPU) Run(app risc.Application) (int, error) {
 			eu.sequenceID = sequenceID
 			resp := eu.Cycle(euReq{cycle, m.ctx, app})
 			if resp.err != nil {
+				if flush {
+					// Raised by an instruction younger than the mispredicted
+					// branch: it is on the wrong path and about to be flushed
+					continue
+				}
 				return 0, resp.err
 			}
 			if resp.flush {
